@@ -1,7 +1,7 @@
 (* C11 — outputs are fully determined by inputs: no stale data, no stray writes.
    A C11 record is a PAIR of runs of one flat-memory operation (opcodes 110000 + op) from two different
    prior contents of the destination buffer (res, res_alt), or a C07 record carrying its own two-fill flags. *)
-From PV Require Import Base.MachineInt Model.Znx Model.Limbs Model.Flat Model.Ring Model.C08Run Model.C09Run Model.C07Run.
+From PV Require Import Base.MachineInt Model.Znx Model.Limbs Model.Flat Model.Ring Model.C08Run Model.C09Run Model.C07Run Model.C05Run.
 Open Scope Z_scope.
 
 Definition vv (vs : list (list Z)) (i : nat) : list Z := nth i vs [].
@@ -26,6 +26,7 @@ Definition run_c11 (code : Z) (ps : list Z) (vs : list (list Z)) : option (list 
     | Some (o1 :: _), Some (o2 :: _) => Some [o1; o2]
     | _, _ => None
     end
+  else if (5000 <=? code) && (code <? 6000) then run_c05 code ps vs
   else run_c07 code ps vs.
 
 (* spec level: which flat words belong to limbs [0,size) of column col *)
@@ -57,4 +58,10 @@ Definition oracle_c11 (code : Z) (ps : list Z) (vs outs : list (list Z)) : Z :=
     let o1 := vv outs 0 in let o2 := vv outs 1 in
     if frame_eq n cols size col 0 r0 o1 && frame_eq n cols size col 0 r0' o2 && col_eq n cols size col 0 o1 o2
     then 1 else 0
+  else if (5001 <=? code) && (code <=? 5004) then
+    (* C05's HAL convolution records: header be n | rcols rsize rcol | ...; vs[2] = prior content of the whole
+       destination, outs[0] = the whole destination afterwards, outs[1] = [same under two scratch fills] *)
+    let n := Z.to_nat (nth 1 ps 0) in let cols := Z.to_nat (nth 2 ps 0) in
+    let size := Z.to_nat (nth 3 ps 0) in let col := Z.to_nat (nth 4 ps 0) in
+    if frame_eq n cols size col 0 (vv vs 2) (vv outs 0) && (nth 0 (vv outs 1) 0 =? 1) then 1 else 0
   else oracle_c07 code ps vs outs.
